@@ -277,37 +277,39 @@ func (c *Ctx) logoutMethodTable() {
 			}
 		}
 	}
+	type selected struct {
+		v      ssa.Value
+		facts  []Fact
+		method string
+	}
+	var sels []selected
 	if len(regs) == 0 {
-		// direct calls Router.X("/logout", …)
-		n := 0
+		// direct calls Router.X("/logout", …), one per arm
 		for _, call := range Calls(init) {
 			if call.Common().IsInvoke() && strings.HasPrefix(Callee(call), "(ab.Router).") {
 				if p, isC := constArgStr(call, 0); isC && p == "/logout" {
-					n++
+					regs = append(regs, call)
+					sels = append(sels, selected{nil, FactsAtInstr(call.(ssa.Instruction)), call.Common().Method.Name()})
 				}
 			}
 		}
-		if n == 0 {
+		if len(regs) == 0 {
 			r.Bad("C10.method", name, "/logout", "-", "no registration of /logout found")
-		} else {
-			r.Unknown("C10.method", name, "/logout", "-", "registration shape not understood (direct calls)")
+			return
 		}
-		return
 	}
 	reg := regs[0]
-	type selected struct {
-		v     ssa.Value
-		facts []Fact
-	}
-	var sels []selected
 	for _, rc := range regs {
+		if rc.Common().IsInvoke() {
+			continue
+		}
 		if phi, ok := rc.Common().Value.(*ssa.Phi); ok {
 			for i, e := range phi.Edges {
-				sels = append(sels, selected{e, FactsAtEdge(phi.Block().Preds[i], phi.Block())})
+				sels = append(sels, selected{e, FactsAtEdge(phi.Block().Preds[i], phi.Block()), ""})
 			}
 			continue
 		}
-		sels = append(sels, selected{rc.Common().Value, FactsAtInstr(rc.(ssa.Instruction))})
+		sels = append(sels, selected{rc.Common().Value, FactsAtInstr(rc.(ssa.Instruction)), ""})
 	}
 	if len(sels) < 2 {
 		r.Unknown("C10.method", name, "/logout", posf(c, reg), "registration function is not selected by a switch")
@@ -316,22 +318,23 @@ func (c *Ctx) logoutMethodTable() {
 	seen := map[string]bool{}
 	for _, se := range sels {
 		e := se.v
-		if IsNilConst(e) {
-			continue // the rejected-method path carries no registration function
-		}
-		for {
-			// a named function type for the registration function
-			ct, isCT := e.(*ssa.ChangeType)
-			if !isCT {
-				break
+		method := se.method
+		if method == "" {
+			if IsNilConst(e) {
+				continue // the rejected-method path carries no registration function
 			}
-			e = ct.X
-		}
-		mc, isMC := e.(*ssa.MakeClosure)
-		method := ""
-		if isMC {
-			if f, ok := mc.Fn.(*ssa.Function); ok {
-				method = strings.TrimSuffix(f.Name(), "$bound")
+			for {
+				// a named function type for the registration function
+				ct, isCT := e.(*ssa.ChangeType)
+				if !isCT {
+					break
+				}
+				e = ct.X
+			}
+			if mc, isMC := e.(*ssa.MakeClosure); isMC {
+				if f, ok := mc.Fn.(*ssa.Function); ok {
+					method = strings.TrimSuffix(f.Name(), "$bound")
+				}
 			}
 		}
 		// which constant selects this edge
